@@ -475,6 +475,11 @@ func (sc *StorageCar) Finalize() error {
 	}
 
 	if sc.opts.WriteAsCarV1 {
+		// A CARv1 needs no header or index written at the end, but it is complete now: refuse
+		// further use, exactly as a finalized CARv2 does.
+		sc.mu.Lock()
+		sc.closed = true
+		sc.mu.Unlock()
 		return nil
 	}
 
